@@ -31,6 +31,7 @@ import (
 	"os"
 	"sort"
 	"strings"
+	"sync"
 
 	"github.com/ohler55/slip"
 	"verif/harness/lib"
@@ -43,6 +44,7 @@ type c05Operand struct {
 	kind string   // q | d | s | l (long-float: big.Float of precision prec)
 	bits uint64   // for single and double floats
 	prec uint     // for long-floats
+	form string   // representation of an integer value: "" canonical | "B" held in a *Bignum | "R" held in a *Ratio with denominator 1
 }
 
 func (o c05Operand) wire() string {
@@ -56,6 +58,12 @@ func (o c05Operand) wire() string {
 		return fmt.Sprintf("l:%d:%s", o.prec, o.rat.RatString())
 	}
 	if o.rat.IsInt() {
+		switch o.form {
+		case "B":
+			return "b:" + o.rat.Num().String()
+		case "R":
+			return "r:" + o.rat.Num().String()
+		}
 		return "q:" + o.rat.Num().String()
 	}
 	return "q:" + o.rat.Num().String() + "/" + o.rat.Denom().String()
@@ -81,7 +89,22 @@ func (o c05Operand) rep() string {
 	case "l":
 		return "lng"
 	}
+	if o.rat.IsInt() {
+		switch o.form {
+		case "B":
+			if o.rat.Num().IsInt64() {
+				return "sbig" // a bignum object holding a value of the fixnum range, e.g. (coerce 5 'bignum)
+			}
+		case "R":
+			return "irat" // a ratio object with denominator 1, e.g. (coerce 5 'ratio)
+		}
+	}
 	return c05Rep(o.rat)
+}
+
+// asForm returns the integer operand in another representation.
+func (o c05Operand) asForm(form string) c05Operand {
+	return c05Operand{rat: o.rat, kind: "q", form: form}
 }
 
 func (o c05Operand) class() string { return o.rep() + o.sign() }
@@ -108,6 +131,12 @@ func (o c05Operand) object() slip.Object {
 		return (*slip.LongFloat)(new(big.Float).SetPrec(o.prec).SetRat(o.rat))
 	}
 	if o.rat.IsInt() {
+		switch o.form {
+		case "B":
+			return (*slip.Bignum)(new(big.Int).Set(o.rat.Num()))
+		case "R":
+			return (*slip.Ratio)(new(big.Rat).Set(o.rat))
+		}
 		if o.rat.Num().IsInt64() {
 			return slip.Fixnum(o.rat.Num().Int64())
 		}
@@ -361,6 +390,11 @@ var c05Ops = []c05Op{
 	{">=", 1, -1, "cmp", 1, true}, {"=", 1, -1, "cmp", 1, true}, {"/=", 1, -1, "cmp", 1, true},
 	{"min", 1, -1, "cmp1", 1, false}, {"max", 1, -1, "cmp1", 1, false},
 	{"zerop", 1, 1, "cmp", 1, true}, {"plusp", 1, 1, "cmp", 1, true}, {"minusp", 1, 1, "cmp", 1, true},
+	// bit counting and testing, parity, sign, parts of a ratio, exact value of a float
+	{"logcount", 1, 1, "int", 1, false}, {"integer-length", 1, 1, "int", 1, false},
+	{"evenp", 1, 1, "int", 1, true}, {"oddp", 1, 1, "int", 1, true}, {"logbitp", 2, 2, "bitp", 1, true},
+	{"signum", 1, 1, "rat", 1, false}, {"numerator", 1, 1, "rat", 1, false}, {"denominator", 1, 1, "rat", 1, false},
+	{"rational", 1, 1, "real", 1, false},
 	// (incf place [delta]) / (decf place [delta]): the place is a variable holding the first operand
 	{"incf", 1, 2, "place", 1, false}, {"decf", 1, 2, "place", 1, false},
 	// slip.LessThan(a, b), the Go ordering helper of the root package (coerce.go), called directly
@@ -403,7 +437,14 @@ func (cs c05Case) lisp() string {
 		case "l":
 			parts = append(parts, fmt.Sprintf("#l<%d:%s>", a.prec, a.rat.RatString()))
 		default:
-			parts = append(parts, a.rat.RatString())
+			switch {
+			case a.form == "B" && a.rat.IsInt():
+				parts = append(parts, "(coerce "+a.rat.RatString()+" 'bignum)")
+			case a.form == "R" && a.rat.IsInt():
+				parts = append(parts, "(coerce "+a.rat.RatString()+" 'ratio)")
+			default:
+				parts = append(parts, a.rat.RatString())
+			}
 		}
 	}
 	return strings.Join(parts, " ") + ")"
@@ -596,7 +637,8 @@ func c05Signature(cs c05Case, model string, aspect string) string {
 
 type c05Avoid struct {
 	bigRatio  map[string]bool // op -> a bignum meets a proper ratio in + - * / (incf, decf use +)
-	subNoDemo bool            // (- …) computed in the bignum branch with a result in fixnum range
+	subNoDemo bool            // (- a b …) computed in the bignum branch with a result in fixnum range
+	negNoDemo bool            // (- a) of a bignum whose negation fits a fixnum
 	floorNeg  bool            // (floor fixnum negative-fixnum)
 	exptNeg   bool            // (expt rational negative-integer)
 }
@@ -614,6 +656,7 @@ func c05AvoidRules(f *lib.Findings) c05Avoid {
 	if f.Listed("C05", "op=decf in=big,rat ") || f.Listed("C05", "op=decf in=fix,rat ") {
 		av.bigRatio["decf"] = true
 	}
+	av.negNoDemo = false // repaired (repo-patches/C05/0023)
 	av.subNoDemo = f.Listed("C05", "op=- in=big ") || f.Listed("C05", "op=- in=big,fix ")
 	av.floorNeg = f.Listed("C05", "op=floor in=fix")
 	for _, fd := range f.Findings {
@@ -634,25 +677,26 @@ func (av c05Avoid) listed(cs c05Case) bool {
 		if len(cs.args) == 0 {
 			return false
 		}
-		// replay the left fold on exact values, tracking the representation of the accumulator
+		// replay the left fold on exact values, tracking the Go type of the accumulator object
+		// (fix | big | rat). The operators bring every operand to canonical form first, so a
+		// non-canonical operand (a small value in a bignum, n/1 in a ratio) counts by its value.
 		acc := new(big.Rat).Set(cs.args[0].rat)
-		accBig := c05IsBigInt(acc) // accumulator is held in a bignum object
+		accRep := c05Rep(acc)
 		if name == "-" && len(cs.args) == 1 {
 			acc.Neg(acc)
-			return av.subNoDemo && accBig && !c05IsBigInt(acc)
+			return av.negNoDemo && accRep == "big" && !c05IsBigInt(acc)
 		}
 		if name == "/" && len(cs.args) == 1 {
 			return false
 		}
 		for _, b := range cs.args[1:] {
-			operand := b.rat
+			bRep := c05Rep(b.rat)
 			if name == "decf" {
-				operand = new(big.Rat).Neg(b.rat) // decf negates the delta, then adds
+				bRep = c05Rep(new(big.Rat).Neg(b.rat)) // decf negates the delta, then adds
 			}
-			if av.bigRatio[name] && ((c05IsBigInt(acc) && !operand.IsInt()) || (!acc.IsInt() && c05IsBigInt(operand))) {
+			if av.bigRatio[name] && ((accRep == "big" && bRep == "rat") || (accRep == "rat" && bRep == "big")) {
 				return true
 			}
-			bothInt := acc.IsInt() && b.rat.IsInt()
 			switch name {
 			case "+", "incf":
 				acc.Add(acc, b.rat)
@@ -666,14 +710,15 @@ func (av c05Avoid) listed(cs c05Case) bool {
 				}
 				acc.Quo(acc, b.rat)
 			}
-			if name == "-" {
-				// no demotion in the bignum branch of -
-				accBig = bothInt && (accBig || c05IsBigInt(b.rat) || c05IsBigInt(acc))
+			if name == "-" && (accRep == "big" || bRep == "big") && accRep != "rat" && bRep != "rat" {
+				accRep = "big" // no demotion in the bignum branch of -
+			} else {
+				accRep = c05Rep(acc) // every other branch returns the canonical representation
 			}
 		}
-		return name == "-" && av.subNoDemo && accBig && !c05IsBigInt(acc)
+		return name == "-" && av.subNoDemo && accRep == "big" && !c05IsBigInt(acc)
 	case "floor":
-		return av.floorNeg && len(cs.args) == 2 && cs.args[0].rep() == "fix" && cs.args[1].rep() == "fix" && cs.args[1].rat.Sign() < 0
+		return av.floorNeg && len(cs.args) == 2 && c05Rep(cs.args[0].rat) == "fix" && c05Rep(cs.args[1].rat) == "fix" && cs.args[1].rat.Sign() < 0
 	case "expt":
 		return av.exptNeg && len(cs.args) == 2 && cs.args[1].rat.Sign() < 0
 	}
@@ -701,12 +746,12 @@ func c05ParseRequest(req string) (c05Case, bool) {
 	for _, a := range w[2:] {
 		kind, v, _ := strings.Cut(a, ":")
 		switch kind {
-		case "q":
+		case "q", "b", "r":
 			r, ok := new(big.Rat).SetString(v)
 			if !ok {
 				return cs, false
 			}
-			cs.args = append(cs.args, c05Operand{rat: r, kind: "q"})
+			cs.args = append(cs.args, c05Operand{rat: r, kind: "q", form: map[string]string{"q": "", "b": "B", "r": "R"}[kind]})
 		case "d":
 			var bits uint64
 			_, _ = fmt.Sscanf(v, "%x", &bits)
@@ -757,6 +802,19 @@ func c05Disagree(cs c05Case, impl, model string) string {
 		return ""
 	}
 	aspect := c05Aspect(impl, model)
+	if strings.HasPrefix(aspect, "wrong-type:") {
+		switch cs.op.name {
+		case "max", "min", "rational", "numerator":
+			// these select one of their operands: handing back a non-canonical operand as it is (same
+			// object type, same value) is not a computed result in non-canonical form
+			iw := strings.Fields(impl)
+			for _, a := range cs.args {
+				if len(iw) == 2 && a.form != "" && c05Show(a.object()) == iw[1] {
+					return ""
+				}
+			}
+		}
+	}
 	if strings.HasPrefix(aspect, "float-result:") && cs.hasFloat() && cs.op.domain == "cmp1" {
 		// min/max may return the float operand itself when it has the same exact value
 		iw, mw := strings.Fields(impl), strings.Fields(model)
@@ -843,7 +901,7 @@ func runC05(c *lib.Ctx) {
 			for _, a := range unaryPool {
 				cases = append(cases, c05Case{op, []c05Operand{a}, true})
 			}
-			if op.isCmp() {
+			if op.isCmp() || op.domain == "real" {
 				for _, a := range floats {
 					cases = append(cases, c05Case{op, []c05Operand{a}, true})
 				}
@@ -861,6 +919,12 @@ func runC05(c *lib.Ctx) {
 				left, right = intPool, intPool
 			case "ash":
 				left, right = intPool, small
+			case "bitp":
+				// (logbitp index integer): indexes around the word and byte boundaries
+				for _, v := range []string{"0", "1", "2", "7", "8", "31", "32", "61", "62", "63", "64", "65", "66", "127", "128", "129", "200", "-1"} {
+					left = append(left, c05Int(v))
+				}
+				right = intPool
 			case "expt":
 				// bases: 0, ±1, ±2, ±3, ±2^31, two bignums, the first nine ratios
 				left = append(append(append([]c05Operand{}, grid[:9]...), c05Int("18446744073709551616"), c05Int("-18446744073709551617")), ratios[:9]...)
@@ -881,7 +945,7 @@ func runC05(c *lib.Ctx) {
 		}
 		if op.name == "isqrt" {
 			// perfect squares and their neighbours around the float64 and fixnum precision limits
-			for _, k := range []string{"94906265", "94906266", "2147483648", "3037000499", "3037000500", "4294967296", "4294967297", "18446744073709551616", "1000000000000000000000000000001"} {
+			for _, k := range []string{"67108864", "67108865", "70000001", "82000001", "90000001", "94906264", "94906265", "94906266", "2147483648", "3037000499", "3037000500", "4294967296", "4294967297", "18446744073709551616", "1000000000000000000000000000001"} {
 				kk := c05Int(k).rat.Num()
 				sq := new(big.Int).Mul(kk, kk)
 				for _, d := range []int64{-1, 0, 1} {
@@ -906,6 +970,33 @@ func runC05(c *lib.Ctx) {
 					nCoupled += 2
 				}
 			}
+		}
+	}
+	// --- single-cause sweep, mixed-format cells: for the comparison family two floats of DIFFERENT
+	// formats (single, double, long-float) derived from the same grid integer — the nearest float of
+	// each format and its neighbours — in both orders: "across all real number types"
+	nMixed := 0
+	for _, op := range c05Ops {
+		if !op.isCmp() || op.maxArg != -1 {
+			continue
+		}
+		for _, g := range grid {
+			fs := c05FloatsNear(g.rat.Num())
+			for _, a := range fs {
+				for _, b := range fs {
+					if a.kind == b.kind {
+						continue
+					}
+					cases = append(cases, c05Case{op, []c05Operand{a, b}, true})
+					nMixed++
+				}
+			}
+		}
+		for _, pr := range [][2]c05Operand{{c05Double(0.1), c05Single(0.1)}, {c05Double(0.5), c05Single(0.5)}, {c05Double(1e-40), c05Single(1e-40)},
+			{c05Double(16777217), c05Single(16777216)}, {c05Double(3.4028234663852886e38), c05Single(3.4028234663852886e38)},
+			{c05Double(1.0000000000000002), c05Long(big.NewInt(1), 64)}, {c05Single(0.1), c05Long(big.NewInt(0), 64)}} {
+			cases = append(cases, c05Case{op, []c05Operand{pr[0], pr[1]}, true}, c05Case{op, []c05Operand{pr[1], pr[0]}, true})
+			nMixed += 2
 		}
 	}
 	// --- single-cause sweep, width-class ratio cells: ratios whose numerator and denominator come
@@ -964,13 +1055,96 @@ func runC05(c *lib.Ctx) {
 			}
 		}
 	}
+	// --- single-cause sweep, representation cells: every legal REPRESENTATION of a value that Lisp
+	// code can produce, not only the canonical one: a value of the fixnum range held in a bignum
+	// ((coerce 5 'bignum), or the result of a subtraction that is not demoted), an integer held in a
+	// ratio with denominator 1 ((coerce 5 'ratio)). Every operator, singles, and pairs with each other
+	// and with canonical partners (integers around the word boundary, ratios, for the comparisons also
+	// integer-valued and neighbouring floats), in both argument orders.
+	var nonCanon []c05Operand
+	for _, v := range []string{"0", "1", "-1", "2", "5", "-7", "2147483648", "4611686018427387904", "9223372036854775807", "-9223372036854775808"} {
+		nonCanon = append(nonCanon, c05Int(v).asForm("B"))
+	}
+	for _, v := range []string{"0", "1", "-1", "5", "-7", "9223372036854775807", "-9223372036854775808", "18446744073709551616"} {
+		nonCanon = append(nonCanon, c05Int(v).asForm("R"))
+	}
+	partners := []c05Operand{}
+	for _, v := range []string{"0", "1", "-1", "2", "3", "5", "7", "-7", "64", "2147483648", "4611686018427387904", "9223372036854775807",
+		"-9223372036854775808", "9223372036854775808", "-9223372036854775809", "18446744073709551616"} {
+		partners = append(partners, c05Int(v))
+	}
+	partnerRatios := []c05Operand{c05RatioS("1", "2"), c05RatioS("-3", "2"), c05RatioS("7", "3"), c05RatioS("18446744073709551617", "3")}
+	partnerFloats := []c05Operand{c05Double(5), c05Single(5), c05Double(4.5), c05Single(-7), c05Double(9223372036854775808.0), c05Double(-9223372036854775808.0),
+		c05Single(9223372036854775808.0), c05Long(big.NewInt(5), 64), c05Double(0), c05Double(1)}
+	nRepCells := 0
+	for _, op := range c05Ops {
+		intOnly := false
+		switch op.domain {
+		case "int", "nat", "ash", "bitp", "expt":
+			intOnly = true
+		}
+		// a ratio object n/1 is of type ratio in slip: the integer-only functions reject it (type-error),
+		// that is slip's type system and not a wrong result, so it is not offered to them
+		pool := nonCanon
+		if op.domain == "int" || op.domain == "bitp" {
+			pool = nil
+			for _, a := range nonCanon {
+				if a.form != "R" {
+					pool = append(pool, a)
+				}
+			}
+		}
+		if op.minArg <= 1 && (op.maxArg == -1 || op.maxArg >= 1) {
+			for _, a := range pool {
+				if op.domain == "nat" && a.rat.Sign() < 0 {
+					continue
+				}
+				cases = append(cases, c05Case{op, []c05Operand{a}, true})
+				nRepCells++
+			}
+		}
+		if !(op.maxArg == -1 || op.maxArg >= 2) {
+			continue
+		}
+		others := append(append([]c05Operand{}, pool...), partners...)
+		if !intOnly {
+			others = append(others, partnerRatios...)
+		}
+		if op.isCmp() {
+			others = append(others, partnerFloats...)
+		}
+		// shift counts, exponents and bit indexes stay small (the result has 2^|k| digits otherwise)
+		smallEnough := func(cs c05Case) bool {
+			k := -1
+			switch op.domain {
+			case "ash", "expt":
+				k = 1
+			case "bitp":
+				k = 0
+			}
+			return k < 0 || cs.args[k].rat.Num().BitLen() <= 8
+		}
+		for _, a := range pool {
+			for _, b := range others {
+				if cs := (c05Case{op, []c05Operand{a, b}, true}); smallEnough(cs) {
+					cases = append(cases, cs)
+					nRepCells++
+				}
+				if cs := (c05Case{op, []c05Operand{b, a}, true}); b.form == "" && smallEnough(cs) {
+					cases = append(cases, cs)
+					nRepCells++
+				}
+			}
+		}
+	}
 	nSweep := len(cases)
 
 	// --- composite, seed independent: all triples over a small pool for the n-ary operators
 	half, mhalf := c05RatioS("1", "2"), c05RatioS("-3", "2")
 	tripleInt := []c05Operand{c05Int("0"), c05Int("1"), c05Int("-1"), c05Int("2"), c05Int("6"), c05Int("4611686018427387904"),
 		c05Int("9223372036854775807"), c05Int("-9223372036854775808"), c05Int("9223372036854775808")}
-	tripleRat := append(append([]c05Operand{}, tripleInt...), half, mhalf)
+	tripleInt = append(tripleInt, c05Int("5").asForm("B"), c05Int("-9223372036854775808").asForm("B"))
+	tripleRat := append(append([]c05Operand{}, tripleInt...), half, mhalf, c05Int("1").asForm("R"))
 	tripleCmp := append(append([]c05Operand{}, tripleRat...), c05Double(0.5), c05Double(9223372036854775808.0), c05Single(1))
 	avoided := 0
 	for _, op := range c05Ops {
@@ -1005,7 +1179,7 @@ func runC05(c *lib.Ctx) {
 		bits := []int{8, 31, 33, 62, 63, 64, 65, 100, 200}[c.Rng.Intn(9)]
 		n := c.Rng.BigBits(bits)
 		switch dom {
-		case "int", "ash":
+		case "int", "ash", "bitp":
 			if c.Rng.Chance(15) {
 				return grid[c.Rng.Intn(len(grid))]
 			}
@@ -1070,12 +1244,23 @@ func runC05(c *lib.Ctx) {
 			}
 			at := c.Rng.Intn(len(args) + 1)
 			args = append(args[:at], append([]c05Operand{f}, args[at:]...)...)
+			if c.Rng.Chance(30) {
+				// a second float derived from the same integer, possibly of another format
+				at = c.Rng.Intn(len(args) + 1)
+				args = append(args[:at], append([]c05Operand{fs[c.Rng.Intn(len(fs))]}, args[at:]...)...)
+			}
 			return c05Case{op, args, false}
 		}
 		for j := 0; j < n; j++ {
 			switch {
 			case op.domain == "ash" && j == 1:
 				args = append(args, c05Big(big.NewInt(int64(c.Rng.Intn(300)-150))))
+			case op.domain == "bitp" && j == 0:
+				args = append(args, c05Big(big.NewInt(int64(c.Rng.Intn(260)))))
+			case op.domain == "real" && c.Rng.Chance(50):
+				args = append(args, floats[c.Rng.Intn(len(floats))])
+			case op.domain == "real":
+				args = append(args, randOperand("rat"))
 			case op.domain == "expt" && j == 1:
 				args = append(args, c05Big(big.NewInt(int64(c.Rng.Intn(24)-8))))
 			case op.domain == "expt":
@@ -1096,6 +1281,16 @@ func runC05(c *lib.Ctx) {
 				args = append(args, randOperand(op.domain))
 			}
 		}
+		for j := range args {
+			// 8 %: the same value in a non-canonical representation
+			if args[j].kind == "q" && args[j].rat.IsInt() && c.Rng.Chance(8) {
+				form := []string{"B", "R"}[c.Rng.Intn(2)]
+				if op.domain == "int" || op.domain == "bitp" {
+					form = "B" // integer-only functions reject a ratio object
+				}
+				args[j] = args[j].asForm(form)
+			}
+		}
 		return c05Case{op, args, false}
 	}
 	// --- run model and implementation, batch by batch (bounds memory in the thorough tier)
@@ -1105,9 +1300,31 @@ func runC05(c *lib.Ctx) {
 		for i, cs := range batch {
 			reqs[i] = cs.request()
 		}
-		replies := c.Model(reqs)
+		// the model driver is a separate, stateless process: run it on four slices of the batch
+		// concurrently while the implementation is evaluated here (sequentially: interpreter state
+		// is process-global); results are joined by index, so the outcome does not depend on timing
+		const parts = 4
+		replies := make([]string, len(reqs))
+		var wg sync.WaitGroup
+		for p := 0; p < parts; p++ {
+			lo, hi := p*len(reqs)/parts, (p+1)*len(reqs)/parts
+			wg.Add(1)
+			go func(lo, hi int) {
+				defer wg.Done()
+				copy(replies[lo:hi], c.Model(reqs[lo:hi]))
+			}(lo, hi)
+		}
+		type implOut struct {
+			reply, msg     string
+			mutated, fault bool
+		}
+		impls := make([]implOut, len(batch))
 		for i, cs := range batch {
-			impl, mutated, fault, msg := c05Impl(cs)
+			impls[i].reply, impls[i].mutated, impls[i].fault, impls[i].msg = c05Impl(cs)
+		}
+		wg.Wait()
+		for i, cs := range batch {
+			impl, mutated, fault, msg := impls[i].reply, impls[i].mutated, impls[i].fault, impls[i].msg
 			model := replies[i]
 			nontrivial := false
 			for _, a := range cs.args {
@@ -1170,18 +1387,6 @@ func runC05(c *lib.Ctx) {
 			if avoid.listed(cs) {
 				continue
 			}
-			if cs.hasFloat() {
-				// mixed float formats compared with each other are outside the quantifier
-				kinds := map[string]bool{}
-				for _, a := range cs.args {
-					if a.kind != "q" {
-						kinds[a.kind] = true
-					}
-				}
-				if len(kinds) > 1 {
-					continue
-				}
-			}
 			batch = append(batch, cs)
 		}
 		nGenerated += len(batch)
@@ -1194,8 +1399,10 @@ func runC05(c *lib.Ctx) {
 	c.Ev.Coverage["sweep_cases"] = nSweep
 	c.Ev.Coverage["sweep_float_coupled_cases"] = nCoupled
 	c.Ev.Coverage["sweep_width_class_ratio_cases"] = nRatioCells
+	c.Ev.Coverage["sweep_representation_cases"] = nRepCells
+	c.Ev.Coverage["sweep_mixed_float_format_cases"] = nMixed
 	c.Ev.Coverage["triple_cases"] = nTriples
 	c.Ev.Coverage["random_cases"] = nRandom
 	c.Ev.Coverage["composite_cases_avoided_listed_construct"] = avoided
-	c.Ev.Coverage["rule"] = "cases = (operator, operand tuple); sweep = boundary grid in all pairs/singles per operator (exhaustive, seed independent); composite = all triples over a small pool for the n-ary operators + random integers/ratios up to 200 bits (constructs listed in findings/C05.json are avoided, never excused); non-trivial = some operand is a ratio or has magnitude >= 2^31; distinct by request line"
+	c.Ev.Coverage["rule"] = "cases = (operator, operand tuple); sweep (exhaustive, seed independent, may be excused by findings/C05.json) = boundary grid in all pairs/singles per operator + float-coupled comparison cells + mixed-format float cells + width-class ratio cells + representation cells (integers held in a bignum object or in a ratio object n/1); composite (never excused, listed constructs avoided) = all triples over a small pool for the n-ary operators + random integers/ratios up to 200 bits, 8 % of the integers in a non-canonical representation; non-trivial = some operand is a ratio or has magnitude >= 2^31; distinct by request line"
 }
